@@ -136,7 +136,7 @@ def run(ctx):
     ctx.rule = ("rotation: vectors/axes of log-uniform magnitude 1e-3..1e7 (10% axis-aligned) x angles in [-4pi,4pi] "
                 "(20% special: 0, +-pi/2, +-pi, +-2pi, +-4pi, +-1e-9) x shapes (3,),(3,n<=5),(3,m<=3,n<=4) x axis "
                 "{shared (3,), shared (3,1), per column} x angle {float, numpy scalar, 0-d, per column}, the rejected "
-                "combination excluded; geodetic: points at geodetic height 0..50000 km (strata: surface, poles, "
+                "combination excluded; the same argument objects handed to two successive calls (no copies); geodetic: points at geodetic height 0..50000 km (strata: surface, poles, "
                 "equator) as scalars and (3,n) arrays, NaN columns mixed in; distinct = distinct inputs")
     ctx.assumptions += [
         "binary64 rounding of the rotation is not proved; sampled against the independent formula to 1e-9 relative to |v|",
@@ -252,6 +252,33 @@ def run(ctx):
             ctx.violation("qrotate differs from Rodrigues' rotation about axis/|axis| by minus the angle (> 1e-9 |v|)",
                           {"signature": sig, **describe(v, axis, angle, axk, angk), "impl": np.asarray(r).tolist(),
                            "spec": ref.tolist(), "relative_error": err})
+    # the SAME argument objects handed to two successive calls (no defensive copies): a caller who rotates two sets of
+    # vectors by one angle array must get the rotation by the values it passed, both times
+    for i in range(ctx.n(600, 6000)):
+        v, axis, angle, axk, angk = rotation_case(rng)
+        v0, axis0 = v.copy(), axis.copy()
+        angle0 = angle.copy() if isinstance(angle, np.ndarray) else angle
+        sig = "C14:reuse:%s:%s:%s:%d" % ("x".join(map(str, v.shape)), axk, angk, i)
+        ctx.case(("reuse", i, v.shape, axk, angk))
+        ref = rodrigues_ref(v0, axis0, angle0)
+        try:
+            with common.time_limit(20):
+                r1 = geoloc.qrotate(v, axis, angle)
+                r2 = geoloc.qrotate(v, axis, angle)
+        except Exception as e:
+            ctx.violation("qrotate raised %s on an in-scope input" % type(e).__name__,
+                          {"signature": sig, **describe(v0, axis0, angle0, axk, angk), "error": str(e)[:200]})
+            continue
+        for which, r in (("first", r1), ("second", r2)):
+            if np.shape(r) != v0.shape:
+                continue
+            err = rel_err(r, ref, v0)
+            if not err <= tol:
+                ctx.violation("the %s of two successive calls with the same argument objects differs from Rodrigues' rotation by "
+                              "minus the angle that was passed (> 1e-9 |v|)" % which,
+                              {"signature": sig, **describe(v0, axis0, angle0, axk, angk), "call": which,
+                               "angle_object_after_the_calls": np.asarray(angle).tolist(), "relative_error": err})
+                break
     # corollaries stated by the property, directly on the implementation
     for i in range(ctx.n(1000, 10000)):
         n = rng.randint(2, 5)
